@@ -16,7 +16,7 @@ def run(tier):
     for t in trees:
         jobs = []
         for plain in (True, True, False):
-            vg = ValueGen(t['tree'], rng, plain_strings=plain)
+            vg = ValueGen(t['tree'], rng, plain_strings=plain, boundary_lengths=True)
             for cls, body in classes_of(t['tree']):
                 for _ in range(2 if quick else 4):
                     try:
